@@ -287,7 +287,7 @@ func runOneSimulation(t *testing.T, bin, dir string, p simPlan, repo string) sim
 	return res
 }
 
-func runSimulations(t *testing.T, dir string) {
+func runSimulations(t *testing.T, dir string, extra []map[string]any) {
 	thorough := EnvTier() == "thorough"
 	repo := repoDir(t)
 	abs, _ := filepath.Abs(dir)
@@ -295,7 +295,7 @@ func runSimulations(t *testing.T, dir string) {
 	build := exec.Command(goTool(), "build", "-race", "-o", bin, "./cmd/simulator")
 	build.Dir = repo
 	build.Env = append(os.Environ(), "GOFLAGS=-mod=mod", "GOPROXY=off", "GOSUMDB=off", "GOTOOLCHAIN=local", "CGO_ENABLED=1")
-	violations := []map[string]any{}
+	violations := append([]map[string]any{}, extra...)
 	if out, err := build.CombinedOutput(); err != nil {
 		violations = append(violations, map[string]any{"what": "the simulator does not build with -race", "detail": string(out)})
 		WriteJSON(t, filepath.Join(dir, "direct.json"), map[string]any{"evaluations": 0, "nontrivial_keys": []string{}, "violations": violations, "known": map[string]any{}})
